@@ -321,7 +321,14 @@ class FnTranslator:
         self.attrs = [(a, parse_type(t)) for a, t in spec.get("attrs", [])]
         self.writes = [(a, parse_type(t)) for a, t in spec.get("writes", [])]
         self.oracles, self.oracle_kw = [], {}
-        for o, args, r in spec.get("oracles", []):
+        self.oracle_once = set()
+        self.fixed = dict(spec.get("fixed", {}))
+        for entry in spec.get("oracles", []):
+            o, args, r = entry[0], entry[1], entry[2]
+            if len(entry) > 3:
+                if entry[3] != "once":
+                    raise Unsupported("oracle flag %r in the spec" % entry[3], node, self.qual)
+                self.oracle_once.add(o)
             kws = [a.split("=")[0].strip() if "=" in a else None for a in args]
             self.oracles.append((o, [parse_type(a.split("=")[-1]) for a in args], parse_type(r)))
             self.oracle_kw[o] = kws
@@ -339,6 +346,7 @@ class FnTranslator:
     def reset(self):
         self.used, self.consts, self.used_oracles, self.helpers = set(), set(), [], set()
         self.defs, self.nloop, self.ncont, self.nfresh = [], 0, 0, 0
+        self.once_sites = {}
         self.pre = None
         self.callee_ifaces = []
 
@@ -455,6 +463,8 @@ class FnTranslator:
             if n.id not in env:
                 raise self.err("name %r is not a parameter or a local that is certainly bound here" % n.id, n)
             t = env[n.id]
+            if t == "fixed":
+                raise self.err("the fixed parameter %r is used other than in a comparison the spec decides" % n.id, n)
             if t == "obj":
                 raise self.err("object %r used as a value (only its declared attributes can be read)" % n.id, n)
             if n.id in self.appended and self.alias_context:
@@ -507,6 +517,16 @@ class FnTranslator:
         if isinstance(n, ast.Compare):
             if len(n.ops) != 1:
                 raise self.err("chained comparison", n)
+            # parameters fixed by the spec (a string selector such as distribution="uniform", or "not None"):
+            # the comparison is decided here and the branch not taken is never looked at
+            if isinstance(n.left, ast.Name) and n.left.id in self.fixed and n.left.id in env:
+                fx, op, rhs = self.fixed[n.left.id], n.ops[0], n.comparators[0]
+                if isinstance(rhs, ast.Constant) and isinstance(rhs.value, str) and isinstance(fx, dict) and "str" in fx \
+                        and isinstance(op, (ast.Eq, ast.NotEq)):
+                    return ("true" if (fx["str"] == rhs.value) == isinstance(op, ast.Eq) else "false"), "bool"
+                if isinstance(rhs, ast.Constant) and rhs.value is None and fx == "not None" and isinstance(op, (ast.Is, ast.IsNot)):
+                    return ("true" if isinstance(op, ast.IsNot) else "false"), "bool"
+                raise self.err("comparison of the fixed parameter %r that the spec does not decide" % n.left.id, n)
             a, ta = self.expr(n.left, env)
             b, tb = self.expr(n.comparators[0], env)
             a, b, t = self.unify(a, ta, b, tb, n)
@@ -715,9 +735,14 @@ class FnTranslator:
                 if len(args) != len(ats):
                     raise self.err("oracle %s called with %d arguments, declared with %d" % (o, len(args), len(ats)), n)
                 cs = [self.expr(a, env, t)[0] for a, t in zip(args, ats)]
+                if o in self.oracle_once:
+                    # an impure oracle (a random draw): one Section variable stands for its single result, so it
+                    # may be called at one place only, outside every loop / lambda
+                    if self.loop_targets or self.once_sites.setdefault(o, (n.lineno, n.col_offset)) != (n.lineno, n.col_offset):
+                        raise self.err("the impure oracle %s is called more than once / inside a loop" % o, n)
                 if o not in self.used_oracles:
                     self.used_oracles.append(o)
-                return "(%s %s)" % (self.oracle_name(o), " ".join(cs)), rt
+                return ("(%s %s)" % (self.oracle_name(o), " ".join(cs)) if cs else self.oracle_name(o)), rt
         if f in self.calls:
             q = self.calls[f]
             if q not in self.done:
@@ -902,7 +927,7 @@ class FnTranslator:
         self.ncont += 1
         name = "%s_k%d" % (self.base, self.ncont)
         toks = tokens(body)
-        params = [v for v in env if env[v] != "obj" and mangle(v) in toks]
+        params = [v for v in env if env[v] not in ("obj", "fixed") and mangle(v) in toks]
         self.defs.append("Definition %s %s : %s :=\n%s." % (
             name, " ".join("(%s : %s)" % (mangle(v), coq_type(env[v])) for v in params), ctx.result_type(),
             textwrap.indent(body, "  ")))
@@ -932,6 +957,10 @@ class FnTranslator:
                 outer = ast.copy_location(ast.If(test=first, body=[inner], orelse=s.orelse), s)
                 return self.if_(outer, rest, env, ctx, k)
             raise
+        if c in ("true", "false") and not pre and not isinstance(s.test, ast.Constant):
+            # decided by the spec's fixed parameters: only the live branch is translated
+            live = s.body if c == "true" else s.orelse
+            return self.block(list(live) + list(rest), env, ctx, k)
         if rest and exits(s.body) + exits(s.orelse) == 0:
             raise self.err("unreachable statement after an if whose branches all return", rest[0])
         if self.simple(s.body) and self.simple(s.orelse) and rest:
@@ -1091,7 +1120,7 @@ class FnTranslator:
         body = self.block(s.body, env_b, bctx, lambda e: loop.state(e, "None", bump=True))
         self.loop_targets, self.safe_index = saved_targets, saved_safe
         toks = tokens(body)
-        params = [v for v in env if env[v] != "obj" and v not in body_assigned and mangle(v) in toks]
+        params = [v for v in env if env[v] not in ("obj", "fixed") and v not in body_assigned and mangle(v) in toks]
         unpack = "".join("let %s := %s st in\n" % (mangle(v), loop.proj(f))
                          for (f, _), v in zip(loop.fields, ([idx] if idx else []) + [c for c, _ in carried]))
         if pat != "x":
@@ -1111,7 +1140,7 @@ class FnTranslator:
         after_body = "match %s %s with\n| Some r => %s\n| None =>\n%s\nend" % (
             loop.proj("ret"), st, ctx.ret_opt("r", env), textwrap.indent(repack + after, "  "))
         toks = tokens(after_body)
-        aparams = [v for v in env if env[v] != "obj" and v not in body_assigned and mangle(v) in toks]
+        aparams = [v for v in env if env[v] not in ("obj", "fixed") and v not in body_assigned and mangle(v) in toks]
         after_name = "%s_l%d_after" % (self.base, loop.k)
         self.defs.append("Definition %s %s : %s :=\n%s." % (
             after_name, " ".join(["(%s : %s)" % (mangle(v), coq_type(env[v])) for v in aparams] + ["(%s : %s)" % (st, loop.st_name)]),
@@ -1145,6 +1174,9 @@ class FnTranslator:
             self.self_name = None
         ptypes = self.spec.get("params", {})
         for nme in names:
+            if nme in self.fixed and isinstance(self.fixed[nme], dict) and "str" in self.fixed[nme]:
+                out.append((nme, "fixed", "fixed"))
+                continue
             if nme not in ptypes:
                 raise self.err("parameter %r has no type in the spec" % nme, self.node)
             t = parse_type(ptypes[nme])
@@ -1225,7 +1257,7 @@ class FnTranslator:
                 return ctx.ret_val(code, e)
             raise self.err("the function can fall off its end without a return", self.node)
         body = self.block(list(self.node.body), env, ctx, fall_off)
-        params = " ".join("(%s : %s)" % (mangle(n), coq_type(t)) for n, t, _ in plist if t != "obj")
+        params = " ".join("(%s : %s)" % (mangle(n), coq_type(t)) for n, t, _ in plist if t not in ("obj", "fixed"))
         self.defs.append("Definition %s %s : %s :=\n%s." % (self.coq, params, self.result_type(), textwrap.indent(body, "  ")))
         out = ["Section %s_section." % self.base, "  Context {T : Type}."]
         for n, ty in self.iface():
